@@ -82,6 +82,15 @@ def _graph_obs(c):
     return [E.obs_mgraph(g), [list(x) for x in p], E.obs_mgraph(h)]
 
 
+def _state_obs(c):
+    """the whole instance state behind the properties (what run_cstate_* of model/C09_State.v returns): raw graphs, canonical
+    reactant graph, mapping_pairs, canonical product graph - each [] when None, [value] otherwise - and "canonical_rsmi is set" """
+    opt = lambda g: [] if g is None else [E.obs_mgraph(g)]
+    p = c.mapping_pairs
+    return [opt(c.raw_reactant_graph), opt(c.raw_product_graph), opt(c.canonical_reactant_graph),
+            [] if p is None else [[list(x) for x in p]], opt(c.canonical_product_graph), c.canonical_rsmi is not None]
+
+
 def _step_check(st):
     from synkit.Chem.Reaction.aam_validator import AAMValidator
     m, t, meth, ia, api = st["m"], st["t"], st.get("method", "RC"), bool(st.get("ia", False)), st.get("api", "pos")
@@ -150,15 +159,15 @@ def _step(st, objs):
             ret = c(st["rsmi"]) if st.get("call") == "call" else c.canonicalise(st["rsmi"])
         except ValueError as e:
             if "node_map must be non-empty" in str(e):
-                return dict(model=[-1], full="ValueError:empty-map")
+                return dict(model=_state_obs(c), full=["ValueError:empty-map", _state_obs(c)])
             raise
         full = _canon_full(c)
         full["returns_self"] = ret is c
-        return dict(model=full["graph"], full=full)
+        return dict(model=_state_obs(c), full=full)
     if op == "props":
         c = objs[st["obj"]]
         a, b = _canon_full(c), _canon_full(c)
-        return dict(model=a["graph"] if a["graph"] is not None else [-1], full=[a, b])
+        return dict(model=_state_obs(c), full=[a, b])
     if op == "mutate":
         c = objs[st["obj"]]
         for g in (c.canonical_reactant_graph, c.canonical_product_graph, c.raw_reactant_graph, c.raw_product_graph):
